@@ -16,7 +16,153 @@ use crate::mon_c01::expected;
 use crate::mon_c06::{hostile_count, hostile_index, hostile_size};
 use crate::util::{guarded, jlist, jobj, jstr, panic_sig, run_cases, Agg, CaseOut, Rng, RunCfg};
 
+/// Child process for the stage `unallocatable-reset`: a reset whose shard size
+/// is valid (even, non-zero) but whose working space cannot possibly be
+/// allocated. What the crate does with such a call is outside the properties
+/// (today it panics or the allocator aborts the process - hence the child
+/// process), BUT if the call *returns Err*, that Err is a failed call like any
+/// other and must have changed nothing.
+pub fn child(case: u64) {
+    let mut rng = Rng::new(case);
+    let api = pick_api(&mut rng);
+    let rate = api_rate(api);
+    let cur = cfg_small(&mut rng, rate);
+    let huge = *rng.pick(&[usize::MAX - 1, 1usize << 62, 1usize << 44, (1usize << 40) + 2]);
+    let encoder = rng.chance(1, 2);
+    let other = cfg_small(&mut rng, rate);
+    let (nk, nr) = if rng.chance(1, 2) { (cur.0, cur.1) } else { (other.0, other.1) };
+    println!("case api={} cur={cur:?} reset=({nk},{nr},{huge}) encoder={encoder}", api.name());
+    if encoder {
+        let mut a = codec::make_enc(api, cur.0, cur.1, cur.2, None).expect("new");
+        let mut b = codec::make_enc(api, cur.0, cur.1, cur.2, None).expect("new");
+        let shards: Vec<Vec<u8>> = (0..cur.0).map(|_| rng.bytes(cur.2)).collect();
+        let j = rng.below(cur.0 + 1);
+        for s in &shards[..j] {
+            a.add(s).expect("add");
+            b.add(s).expect("add");
+        }
+        match guarded(|| a.reset(nk, nr, huge)) {
+            Err(_) => {
+                println!("outcome panicked");
+                return;
+            }
+            Ok(Ok(())) => {
+                println!("outcome ok");
+                return;
+            }
+            Ok(Err(e)) => println!("outcome err {e:?}"),
+        }
+        let after = guarded(|| -> Result<Vec<Vec<u8>>, reed_solomon_simd::Error> {
+            for s in &shards[j..] {
+                a.add(s)?;
+            }
+            Ok(a.encode_obs(&[])?.iter)
+        });
+        for s in &shards[j..] {
+            b.add(s).expect("twin add");
+        }
+        let want = b.encode_obs(&[]).expect("twin encode").iter;
+        match after {
+            Err(p) => println!("after panicked {}", p.replace('\n', " ")),
+            Ok(Err(e)) => println!("after err {e:?}"),
+            Ok(Ok(got)) if got == want => println!("after same"),
+            Ok(Ok(_)) => println!("after differs"),
+        }
+    } else {
+        let round = new_round(&mut rng, rate, cur);
+        let mut a = codec::make_dec(api, cur.0, cur.1, cur.2, None).expect("new");
+        let mut b = codec::make_dec(api, cur.0, cur.1, cur.2, None).expect("new");
+        // all recovery shards that fit, then originals until k shards are there
+        let nrec = cur.1.min(cur.0);
+        let j = rng.below(nrec + 1);
+        for i in 0..j {
+            a.add_recovery(i, &round.recovery[i]).expect("add");
+            b.add_recovery(i, &round.recovery[i]).expect("add");
+        }
+        match guarded(|| a.reset(nk, nr, huge)) {
+            Err(_) => {
+                println!("outcome panicked");
+                return;
+            }
+            Ok(Ok(())) => {
+                println!("outcome ok");
+                return;
+            }
+            Ok(Err(e)) => println!("outcome err {e:?}"),
+        }
+        let given: Vec<usize> = (nrec..cur.0).collect();
+        let after = guarded(|| -> Result<Vec<(usize, Vec<u8>)>, reed_solomon_simd::Error> {
+            for i in j..nrec {
+                a.add_recovery(i, &round.recovery[i])?;
+            }
+            for i in &given {
+                a.add_original(*i, &round.originals[*i])?;
+            }
+            Ok(a.decode_obs(&[])?.iter)
+        });
+        let want = expected(&round.originals, &given);
+        let _ = b;
+        match after {
+            Err(p) => println!("after panicked {}", p.replace('\n', " ")),
+            Ok(Err(e)) => println!("after err {e:?}"),
+            Ok(Ok(got)) if got == want => println!("after same"),
+            Ok(Ok(_)) => println!("after differs"),
+        }
+    }
+}
+
+fn unallocatable_reset_stage(cfg: &RunCfg, agg: &Mutex<Agg>) {
+    if !cfg.stage_enabled("unallocatable-reset") {
+        return;
+    }
+    let exe = std::env::current_exe().expect("current_exe");
+    let n = crate::count(cfg, 12, 120);
+    let seeds: Vec<u64> = match cfg.only_case {
+        Some(c) => vec![c],
+        None => (0..n).map(|i| crate::util::mix(cfg.seed ^ 0xC07, i)).collect(),
+    };
+    let mut out = CaseOut::default();
+    let mut returned_err = 0u64;
+    let mut died = 0u64;
+    for seed in seeds {
+        let o = std::process::Command::new(&exe)
+            .args(["C07CHILD", "--case", &seed.to_string()])
+            .output();
+        let Ok(o) = o else {
+            out.inconclusive.push("cannot spawn child".into());
+            continue;
+        };
+        let text = String::from_utf8_lossy(&o.stdout).to_string();
+        out.evals += 1;
+        let outcome = text.lines().find(|l| l.starts_with("outcome")).unwrap_or("outcome died");
+        let after = text.lines().find(|l| l.starts_with("after")).unwrap_or("");
+        let case = text.lines().find(|l| l.starts_with("case")).unwrap_or("").to_string();
+        if outcome.starts_with("outcome err") {
+            returned_err += 1;
+            out.nontrivial_key(&case);
+            if !after.starts_with("after same") {
+                out.violations.push((
+                    "C07:failed-reset-with-unallocatable-size-changed-the-object".to_string(),
+                    format!("{case}: the reset returned an error ({outcome}) and the rest of the round then gave: {after} (child seed {seed})"),
+                ));
+            }
+        } else {
+            // panic / abort / kill: what happens for sizes that cannot be
+            // allocated is outside the properties
+            died += 1;
+        }
+    }
+    out.add("resets with an unallocatable shard size that returned Err (judged)", returned_err);
+    out.add("resets with an unallocatable shard size that panicked or aborted (outside the property)", died);
+    out.tag("unallocatable-reset");
+    // this stage is an extra: it judges only calls that return Err, and none
+    // does on a tree that panics / aborts there; never count it as coverage
+    out.sample = Some(jobj(&[("unallocatable_reset", jstr(&format!("{} child processes: {returned_err} returned Err, {died} died", returned_err + died)))]));
+    agg.lock().unwrap().absorb("unallocatable-reset", 0, out);
+}
+
 pub fn run(cfg: &RunCfg, agg: &Mutex<Agg>) {
+    unallocatable_reset_stage(cfg, agg);
     run_cases(agg, cfg, "encoder-twin", crate::count(cfg, 6000, 150_000), |cs, out| {
         encoder_twin(&mut Rng::new(cs), out);
     });
